@@ -14,7 +14,7 @@ from props.C02 import t_pva, t_increments, node, NAMES, INC, _float_setup
 
 MANIFEST = dict(
     category="proof",
-    technique="2D class invariant of Integrator (VD literal 0.0, altitude the supplied leaf) established in an uninterpreted trace domain with only IEEE-exact rewrites (x+0.0, x*1, 0*finite); correct_pva / T_oi / _compute_sd executed in the same domain; AST frame check of the feedback filter's writes to the integrator; run-time stand-in on the real filter",
+    technique="2D class invariant of Integrator (VD literal 0.0, altitude the supplied leaf) established in an uninterpreted trace domain with only IEEE-exact rewrites (x+0.0, x*1, 0*finite); correct_pva / T_oi / _compute_sd executed in the same domain; AST frame check of the feedback filter's writes to the integrator; run-time stand-in on the real filter; Bounded stand-ins shared by all properties (labelled bounded, never counted as proved): the argument-form battery of the modules under contract (batches of 1 and 1200 rows, integer-typed values, labels / columns in other orders, extra labels); where the frame analysis finds state that outlives a call (a cache, a memo) the frame obligation becomes a dynamic purity contract against pristine process states; names the proofs replace by scipy contracts are checked to be bound to the library's functions (else a differential test).",
     text="In the trace domain equality is identity of operation DAGs, so 'exactly zero' and 'exactly equal' are decided without any arithmetic law beyond x+0.0=x, x*1=x, 0.0*finite=0.0. With altitude modelling off it is proved for all increments and all supplied states (including non-zero vertical velocity) that the constructor and set_pva establish, and every kernel step preserves and needs, the invariant 'vertical velocity is the literal 0.0 and altitude is the very value most recently supplied'; that a 2D correction returns the input altitude and vertical velocity cells themselves; that the feedback filter writes the integrator only through integrate and set_pva(correct_pva(get_pva(), .)); and that the down / VD rows of the output transform are literal zeros so both filters' standard deviations for them are the literal 0.0 for finite covariances. The measurement models' vertical row is dropped (C06 shape obligations re-run).",
     note="A2, A4; finite covariance and state values (0.0*x = 0.0); sign of zero not distinguished; pandas object-dtype operations executed; the filter-level statement is a lemma over C09's loop frame plus the per-method obligations here, additionally exercised by a bounded native run.",
 )
